@@ -184,8 +184,10 @@ def _doc_case(draw):
 @st.composite
 def _para2_case(draw):
     feat = frozenset({"quotes", "code", "emph", "link", "tags", "escape"})
-    p1 = "\n".join(draw(textgen.para_lines(feat, 1, 12)))
-    p2 = "\n".join(draw(textgen.para_lines(feat, 1, 12)))
+    from vf.layout import realize
+
+    p1 = realize("\n".join(draw(textgen.para_lines(feat, 1, 12))), draw(st.integers(0, 1000)))
+    p2 = realize("\n".join(draw(textgen.para_lines(feat, 1, 12))), draw(st.integers(0, 1000)))
     return {"kind": "para2", "p1": p1, "p2": p2, "opts": draw(opts.md_options())}
 
 
